@@ -1218,3 +1218,90 @@ def check_parity_dispatch(ctx, res, config="all"):
     else:
         res.fail(Finding("R3b-parity-dispatch", b.path, "monty_modpow (which requires an odd modulus) is called without a dominating is_odd(modulus) test on the same modulus", b))
     res.clause("R3b: the Montgomery path is entered only behind is_odd(modulus)")
+
+
+# ------------------------------------------------------------------------------------------
+# R3c: reviewed table of release-live explicit panic sites; anything new is unclassified
+
+
+def _site_table_path():
+    import os
+
+    return os.path.join(core.VERIF, "tables", "r3c_panic_sites.json")
+
+
+def _classify(body, kind, msg):
+    m = msg.lower()
+    if "divide by zero" in m or "zero modulus" in m or "negative exponentiation" in m or "radix must be" in m or "shift left with negative" in m or "shift right with negative" in m or "imaginary" in m or "root degree" in m or "cannot subtract" in m or "lbound < *ubound" in m or "low <" in m or "bound.is_zero" in m:
+        return "DOCUMENTED"
+    if "capacity overflow" in m or "memory overflow" in m:
+        return "OUT-OF-SCOPE (result does not fit in memory)"
+    if kind == "unreachable":
+        return "INTERNAL (after a zero-divisor panic)"
+    if kind in ("unwrap", "expect"):
+        return "STRUCTURALLY-GUARDED / INTERNAL"
+    return "INTERNAL"
+
+
+def current_sites(ctx):
+    fr = ctx.facts("all-rel")
+    c = {}
+    for s_ in explicit_panic_sites(fr):
+        if s_["live"]:
+            k = "%s|%s|%s" % (s_["body"], s_["kind"], s_["msg"][:60])
+            c[k] = c.get(k, 0) + 1
+    # checked negation of signed primitives (dev configuration: OverflowNeg assertions)
+    fa = ctx.facts("all")
+    for b in fa.bodies:
+        for i, t in b.terms("assert"):
+            if t["msg"] == "OverflowNeg" and i in b.live_blocks():
+                k = "%s|checked-negation|OverflowNeg" % b.path
+                c[k] = c.get(k, 0) + 1
+    return c
+
+
+def write_site_table(ctx):
+    import json, os
+
+    c = current_sites(ctx)
+    tab = {k: {"count": v, "class": _classify(*k.split("|", 2))} for k, v in sorted(c.items())}
+    os.makedirs(os.path.dirname(_site_table_path()), exist_ok=True)
+    with open(_site_table_path(), "w") as fh:
+        json.dump({"comment": "release-live explicit panic sites (+ checked negations of signed primitives) reviewed on the pinned tree; key = function|kind|message", "sites": tab}, fh, indent=0)
+    return len(tab)
+
+
+def check_panic_site_table(ctx, res):
+    import json, os
+
+    p = _site_table_path()
+    if not os.path.exists(p):
+        res.fail(Finding("R3c-anchor-lost", "site-table", "tables/r3c_panic_sites.json missing", file="(verif)", line=0))
+        return
+    with open(p) as fh:
+        tab = json.load(fh)["sites"]
+    cur = current_sites(ctx)
+    fr = ctx.facts("all-rel")
+    new = 0
+    for k, n in sorted(cur.items()):
+        allowed = tab.get(k, {}).get("count", 0)
+        if n > allowed:
+            new += 1
+            body, kind, msg = k.split("|", 2)
+            bb = fr.body(body)
+            if kind == "checked-negation":
+                why = "negation of a signed primitive with an overflow check: it panics in debug builds (and wraps in release) when the value is MIN; the crate's idiom is wrapping_neg / unsigned_abs / checked_uabs"
+            else:
+                why = "a release-live panic site `%s` (%s) that is not in the reviewed inventory: it is not shown to fire only in a documented failure case" % (kind, msg or "no message")
+            res.fail(Finding("R3c-unclassified-panic", k, "%s has %d such site(s), the reviewed inventory allows %d: %s" % (body, n, allowed, why), bb, file=None if bb else "src"))
+        else:
+            res.ok("R3c-site", k, None, nontrivial=False)
+    gone = [k for k in tab if k not in cur]
+    for k in gone[:10]:
+        res.note("inventory entry no longer present: %s" % k)
+    res.count("R3c inventory entries", len(tab))
+    res.count("R3c current site keys", len(cur))
+    res.distinct.add("R3c-site:inventory")
+    if len(cur) < 60:
+        res.fail(Finding("R3c-anchor-lost", "sites", "only %d site keys found (floor 60)" % len(cur), file="src", line=0))
+    res.clause("R3c: every release-live explicit panic site (and every overflow-checked negation of a signed primitive) belongs to the reviewed inventory; a new one is unclassified")
